@@ -33,15 +33,16 @@ func DefaultCfg() Cfg {
 
 // G is the state of one generated case.
 type G struct {
-	T       *rapid.T
-	Cfg     Cfg
-	budget  int
-	slices  int
-	bigSlot int
-	bigCls  int
-	nodes   map[reflect.Type][]reflect.Value
-	depth   int
-	n       int
+	T        *rapid.T
+	Cfg      Cfg
+	budget   int
+	slices   int
+	bigSlot  int
+	bigCls   int
+	nodes    map[reflect.Type][]reflect.Value
+	dynConts []reflect.Value
+	depth    int
+	n        int
 	// Labels collected for evidence (length class hit, shapes, ...).
 	Labels  map[string]int
 	Avoided map[string]int
@@ -246,7 +247,7 @@ func (g *G) Time() time.Time {
 		return time.Time{}
 	case k < 4:
 		// inside the int32-seconds window, whole second
-		s := rapid.Int64Range(-(1 << 31), 1<<31-1).Draw(g.T, g.name("tsec"))
+		s := rapid.Int64Range(-(1<<31), 1<<31-1).Draw(g.T, g.name("tsec"))
 		tm = time.Unix(s, 0)
 	case k < 7:
 		ms := rapid.Int64Range(0, 4102444800000).Draw(g.T, g.name("tms"))
@@ -421,6 +422,19 @@ func (g *G) dynKey() reflect.Value {
 // int32, int64, float64, string, []byte, time.Time, *struct, []interface{},
 // map[interface{}]interface{}, []int32, []string.
 func (g *G) Dynamic() reflect.Value {
+	v := g.dynamic1()
+	if v.IsValid() && (v.Kind() == reflect.Map || v.Kind() == reflect.Slice && v.Type().Elem().Kind() != reflect.Uint8) && v.Len() > 0 {
+		g.dynConts = append(g.dynConts, v)
+	}
+	return v
+}
+
+func (g *G) dynamic1() reflect.Value {
+	// the same non-empty list or map once more (travels as a back-reference)
+	if g.Cfg.Share && len(g.dynConts) > 0 && rapid.IntRange(0, 11).Draw(g.T, g.name("dynAgain")) == 0 {
+		g.lbl("shared-container")
+		return g.dynConts[rapid.IntRange(0, len(g.dynConts)-1).Draw(g.T, g.name("dynWhich"))]
+	}
 	max := 13
 	if g.depth > 4 || g.budget <= 0 {
 		max = 8
@@ -464,10 +478,24 @@ func (g *G) Dynamic() reflect.Value {
 	case 12:
 		return g.Value(T(map[interface{}]interface{}{}))
 	default:
-		if rapid.Bool().Draw(g.T, g.name("dynsl")) {
+		switch rapid.IntRange(0, 3).Draw(g.T, g.name("dynsl")) {
+		case 0:
 			return g.Value(T([]int32{}))
+		case 1:
+			return g.Value(T([]string{}))
+		case 2:
+			m := g.Value(T(NMap{}))
+			if m.Len() == 0 {
+				return reflect.Value{}
+			}
+			return m
+		default:
+			m := g.Value(T(PlainMap{}))
+			if m.Len() == 0 {
+				return reflect.Value{}
+			}
+			return m
 		}
-		return g.Value(T([]string{}))
 	}
 }
 
